@@ -242,33 +242,36 @@ func felixConsumers(repo string) string {
 	// shape checks: NoEncapNeeded, pool classification, plumbing
 	er := parse(repo, "felix/calc/encapsulation_resolver.go")
 	if got := str(funcDecl(er, "NoEncapNeeded").Body); got != "{ if c.config == nil || !c.config.ProgramNoEncapClusterRoutes() { return false } return len(c.noEncapPools) > 0 }" {
-		die("EncapsulationCalculator.NoEncapNeeded changed: %s", got)
+		problem("EncapsulationCalculator.NoEncapNeeded changed: %s", got)
+	}
+	if got := str(funcDecl(er, "updatePool").Type); got != "func(cidr string, ipipEnabled, vxlanEnabled bool)" {
+		problem("EncapsulationCalculator.updatePool now takes %s: the model classifies a pool by its two modes only (ownership must not depend on other pool attributes such as `disabled`)", got)
 	}
 	up := str(funcDecl(er, "updatePool").Body)
 	for _, frag := range []string{"if ipipEnabled { c.ipipPools[cidr] = struct{}{} } else { delete(c.ipipPools, cidr) }", "if !ipipEnabled && !vxlanEnabled { c.noEncapPools[cidr] = struct{}{} } else { delete(c.noEncapPools, cidr) }"} {
 		if !strings.Contains(up, frag) {
-			die("EncapsulationCalculator.updatePool lost %q", frag)
+			problem("EncapsulationCalculator.updatePool lost %q", frag)
 		}
 	}
 	for _, fn := range []string{"IPIPEnabled", "VXLANEnabled"} {
 		b := str(funcDecl(er, fn).Body)
 		if !strings.Contains(b, "return len(c.") {
-			die("EncapsulationCalculator.%s changed: %s", fn, b)
+			problem("EncapsulationCalculator.%s changed: %s", fn, b)
 		}
 	}
 	drv, err := os.ReadFile(filepath.Join(repo, "felix/dataplane/driver.go"))
 	if err != nil {
-		die("driver.go: %v", err)
+		problem("driver.go: %v", err)
 	}
 	dn := strings.Join(strings.Fields(string(drv)), " ")
 	for _, frag := range []string{"ProgramIPIPClusterRoutes: configParams.ProgramIPIPClusterRoutes(),", "ProgramNoEncapClusterRoutes: configParams.ProgramNoEncapClusterRoutes(),", "NoEncapNeeded: configParams.Encapsulation.NoEncapNeeded,"} {
 		if !strings.Contains(dn, frag) {
-			die("driver.go no longer plumbs %q", frag)
+			problem("driver.go no longer plumbs %q", frag)
 		}
 	}
 	dm, err := os.ReadFile(filepath.Join(repo, "felix/daemon/daemon.go"))
 	if err != nil || !strings.Contains(string(dm), "configParams.Encapsulation.NoEncapNeeded = encapCalculator.NoEncapNeeded()") {
-		die("daemon.go no longer sets Encapsulation.NoEncapNeeded from the EncapsulationCalculator")
+		problem("daemon.go no longer sets Encapsulation.NoEncapNeeded from the EncapsulationCalculator")
 	}
 	var b strings.Builder
 	b.WriteString("/-- Guards of Felix's consumers of the two booleans: ipip_mgr.go route-manager calls, and the conditions under\nwhich int_dataplane.go starts the noEncap / VXLAN / IPIP managers; gate of the L3 route resolver (calc_graph.go). -/\n")
